@@ -83,6 +83,8 @@ def make_world(rng):
         nm = f"{d_in}a_empty.s"
         files[nm] = rng.choice(["", "\n", "\nempty.o:     file format elf64-x86-64\n\n"])
         listings.append(nm)
+    if rng.random() < 0.3:
+        listings.append("/dev/null")  # not a regular file, perfectly readable: an empty listing
     if rng.random() < 0.5:
         text, _blk = gen.gen_listing_repeated(rng)
         files[f"{d_in}a_rep.s"] = text
@@ -115,7 +117,7 @@ def make_world(rng):
 
     # ---- flags family: substring names, verdict depends on the two flags
     for li in listings:
-        dec = gen.decode_listing(files[li])
+        dec = gen.decode_listing(files.get(li, ""))
         items = _window_items(rng, dec, rng.randrange(2, 5), substr=True)
         if not items:
             continue
@@ -133,7 +135,7 @@ def make_world(rng):
 
     # ---- range family
     for li in listings:
-        dec = gen.decode_listing(files[li])
+        dec = gen.decode_listing(files.get(li, ""))
         br = [(a, mn, ops) for (a, mn, ops) in dec if mn in JUMPS and ops and rules._is_hexstr(ops[0])]
         if not br:
             continue
@@ -198,7 +200,7 @@ def make_world(rng):
 
     # ---- capture family
     for li in listings[:2]:
-        dec = gen.decode_listing(files[li])
+        dec = gen.decode_listing(files.get(li, ""))
         w = [(a, mn, ops) for (a, mn, ops) in dec if mn and ops and len(ops) >= 1 and gen._SAFE.match(mn)]
         if len(w) < 2:
             continue
@@ -213,7 +215,7 @@ def make_world(rng):
     macro_docs = {}
     if listings:
         li = listings[0]
-        dec = gen.decode_listing(files[li])
+        dec = gen.decode_listing(files.get(li, ""))
         items = _window_items(rng, dec, 3, substr=True, with_ops_p=0.3)
         if items:
             body_ok = items[1]
@@ -256,13 +258,14 @@ def make_world(rng):
         for i, mf in enumerate(mnames):
             other = mnames[(i + 1) % len(mnames)] if len(mnames) > 1 else None
             files[d_rules + mf] = files[other] if other else gen.dump_yaml({"macros": [{"name": "@mm", "pattern": "fxsave"}]})
-        for i, li in enumerate(listings):
-            files[d_rules + li] = files[listings[(i + 1) % len(listings)]] if len(listings) > 1 else "\n"
+        real = [x for x in listings if x in files]
+        for i, li in enumerate(real):
+            files[d_rules + li] = files[real[(i + 1) % len(real)]] if len(real) > 1 else "\n"
 
     # ---- rule features with tables/registries of their own: $and_any_order of several sizes, times variants, $deref with captures
     if listings:
         li = rng.choice(listings)
-        dec = gen.decode_listing(files[li])
+        dec = gen.decode_listing(files.get(li, ""))
         for size in (2, 3, 4):
             its = _window_items(rng, dec, size, substr=True, with_ops_p=0.3)
             if its:
@@ -328,7 +331,7 @@ def make_world(rng):
 
     # ---- plain rules built with the full feature mix
     for li in listings:
-        dec = gen.decode_listing(files[li])
+        dec = gen.decode_listing(files.get(li, ""))
         for _ in range(2):
             b = rules.build_found_rule(rng, dec, features={f for f in rules.FEATURES if rng.random() < 0.4} - {"macro_files"})
             if b:
@@ -400,6 +403,18 @@ def make_history(rng, world, with_faults):
     broken = [e for e in pool if e["family"] == "broken"]
     n = rng.randrange(2, 15) if rng.random() < 0.93 else rng.randrange(30, 45)
     focus = rng.choice(fams)
+    if broken and rng.random() < 0.06:
+        # an error storm: many rejected rules in a row, then ordinary operations (state that rejected
+        # operations leave behind may only add up to something visible after many of them)
+        kind = rng.choice(broken)
+        storm = []
+        for _ in range(rng.randrange(10, 26)):
+            e = kind if rng.random() < 0.7 else rng.choice(broken)
+            op = _match_op(rng, e, listings, binaries)
+            op["_tag"] = "broken:" + e["variant"] + ":" + op["type"]
+            storm.append(op)
+        tail = [_match_op(rng, rng.choice(byfam[focus]), listings, binaries) for _ in range(rng.randrange(2, 5))]
+        return storm + tail
     focus_in = rng.choice([e["pref"] for e in byfam[focus]])
     focus_mode = rng.choice(MODES)
     use_writes = rng.random() < 0.6
@@ -478,8 +493,10 @@ def _write_op(rng, files, pool, listings, binaries, macro_files, focus, byfam):
         a, b = rng.sample(macro_files, 2)
         return {"op": "write", "path": a, "content": util.enc_content(files[b]), "_tag": "write:macrofile"}
     if c < 0.75 and len(listings) >= 2:
-        a, b = rng.sample(listings, 2)
-        return {"op": "write", "path": a, "content": util.enc_content(files[b]), "_tag": "write:listing"}
+        real = [x for x in listings if x in files]
+        if len(real) >= 2:
+            a, b = rng.sample(real, 2)
+            return {"op": "write", "path": a, "content": util.enc_content(files[b]), "_tag": "write:listing"}
     if len(binaries) >= 2:
         a, b = rng.sample(binaries, 2)
         return {"op": "write", "path": a, "content": util.enc_content(files[b]), "_tag": "write:binary"}
